@@ -170,6 +170,14 @@ def run(ctx):
     ctx.not_decided = "the behaviour of a real server and of the ssl module; histories are covered only through the flag/ordering facts."
     ctx.assumptions = ["Python name mangling keeps __private methods unreachable from outside the class",
                        "the decorator is applied with @ syntax (other wrappers are not recognised and count as unguarded)"]
+    session_rules(ctx, R)
+    # "unless an AUTHENTICATE exchange ... ended with OK": what the server answered is what the readers make of the bytes (M1-M7 of C05)
+    from .c05 import reader_rules
+    reader_rules(ctx, R)
+
+
+def session_rules(ctx, R):
+    """A1-A9 (shared with C16: the mechanism is chosen from what THIS server announced AFTER the handshake, credentials only then)."""
     G = R.graph
     guarded = guarded_methods(R)
 
